@@ -26,6 +26,7 @@ Defs == <<
   Func("F8", <<"A">>, <<If(Bin("==", V("A"), I(1)), <<Let("W", Str("w")), Return(V("W"))>>, <<>>),
                         If(Bin("==", V("A"), I(2)), <<Let("W2", Bin("/", I(1), I(0)))>>, <<>>),
                         PrintS(<<Str("in8 "), V("W"), V("W2")>>)>>),
+  Func("F10", <<"A">>, <<If(Bin("<", V("A"), I(0)), <<Return(NoExpr)>>, <<>>), PutS(<<Str("s"), V("A")>>), Return(V("A"))>>),
   Func("F9", <<"A">>, <<For("K", I(1), V("A"), NoExpr, "auto", <<If(Bin("==", V("K"), I(2)), <<Return(V("K"))>>, <<>>)>>), Return(I(-1))>>)
 >>
 
@@ -33,7 +34,7 @@ CallPool == <<
   UCall("F1", <<I(1)>>), UCall("F1", <<I(0)>>), UCall("F2", <<I(1)>>), UCall("F2", <<I(2)>>),
   UCall("F3", <<I(2)>>), UCall("F4", <<I(3)>>), UCall("F4", <<I(2)>>), UCall("F6", <<I(1)>>), UCall("F6", <<I(1), I(2)>>),
   UCall("F7", <<V("TT")>>), UCall("F8", <<I(1)>>), UCall("F8", <<I(0)>>), UCall("F8", <<I(2)>>),
-  UCall("F9", <<I(3)>>), UCall("F9", <<I(1)>>)
+  UCall("F9", <<I(3)>>), UCall("F9", <<I(1)>>), UCall("F10", <<I(-1)>>), UCall("F10", <<I(1)>>)
 >>
 
 Guarded(c) == Begin(<<Let("R", c), PrintS(<<Str("="), V("R")>>)>>, <<When("OTHERS", <<PrintS(<<Str("err "), Item(Call("error", <<>>), 1)>>)>>)>>)
@@ -56,13 +57,19 @@ RecProgs == {RecDefs \o <<Begin(<<Let("R", UCall("RR", <<I(n)>>)), PrintS(<<V("R
              \cup {RecDefs \o <<Begin(<<Let("R", UCall("RR", <<I(256)>>))>>, <<When("OTHERS", <<PrintS(<<Str("caught")>>)>>)>>)>>,
                    RecDefs \o <<Let("R", UCall("RR", <<I(300)>>))>>}
 
+\* the same function entered at very different nesting depths (its recycled environment must not remember the depth)
+DeepDefs == RecDefs \o <<Func("DP", <<"N", "M">>, <<If(Bin("<=", V("N"), I(0)), <<Return(UCall("RR", <<V("M")>>))>>, <<>>), Return(UCall("DP", <<Bin("-", V("N"), I(1)), V("M")>>))>>)>>
+Guard2(c) == Begin(<<Let("R", c), PrintS(<<Str("="), V("R")>>)>>, <<When("OTHERS", <<PrintS(<<Str("caught")>>)>>)>>)
+DeepProgs == { DeepDefs \o <<Guard2(UCall("DP", <<I(a), I(1)>>)), Guard2(UCall("RR", <<I(b)>>)), Guard2(UCall("DP", <<I(c), I(d)>>)), PrintS(<<Str("end")>>)>>
+                 : a \in {0, 200}, b \in {1, 150}, c \in {0, 100, 241}, d \in {1, 30} }
+
 \* a function body cannot see the caller's variables: such a definition is not a valid program
 Rejects == {"H = 5;\nfunction FX(A) return undefined is begin return H; end;",
             "H = 5;\nfunction FX(A) return undefined is begin H2 = H + A; return H2; end;"}
 
 VARIABLE p
 Init == p \in {[kind |-> "hist", m |-> HProg(h, o)] : h \in Histories, o \in DOMAIN CallPool}
-              \cup {[kind |-> "loop", m |-> x] : x \in LoopProgs} \cup {[kind |-> "rec", m |-> x] : x \in RecProgs}
+              \cup {[kind |-> "loop", m |-> x] : x \in LoopProgs} \cup {[kind |-> "rec", m |-> x] : x \in RecProgs \cup DeepProgs}
               \cup {[kind |-> "reject", m |-> <<>>, t |-> x] : x \in Rejects}
 Next == UNCHANGED p
 Scenario(q) ==
